@@ -1,7 +1,7 @@
 (* C24 — prettify preserves meaning and is idempotent: the literal and identifier layer.
    Model: Model/Codec.v (c) render_literal = ASTString.visit_Constant/_handle_literal, parse_literal = the grammar's `constant`
    as built by Terminals.visitConstant; a float is the finite decimal its repr shows (CPython: scientific iff exponent < -4 or
-   >= 16 — py_repr is compared with repr() on every generated literal by the harness).  (d) _format_reserved_word.
+   >= 16 — py_repr is compared with repr() on every generated literal by the harness).  (d) _format_reserved_word (plain = first IDENTIFIER alternative; names with ':' are outside the model).
    Partial: the whole renderer ASTString against the whole grammar is checked by correspondence only (harness). *)
 From Coq Require Import String Ascii List ZArith.
 Import ListNotations.
@@ -61,19 +61,30 @@ Theorem C24_quote_reserved_roundtrip : forall reserved n, has_sq n = false ->
 Proof. exact quote_reserved_roundtrip. Qed.
 Print Assumptions C24_quote_reserved_roundtrip.
 
-(* … _format_reserved_word as coded does so for reserved words and plain identifiers … *)
-Theorem C24_quote_reserved_roundtrip_impl_partial : forall reserved n, has_sq n = false ->
-  mem_bytes n reserved = true \/ is_plain_ident n = true ->
-  parse_ident reserved (render_ident_impl reserved n) = Some n.
-Proof. exact quote_reserved_roundtrip_impl_partial. Qed.
-Print Assumptions C24_quote_reserved_roundtrip_impl_partial.
+(* … _format_reserved_word as coded now (/repo d900c32) is that rule on every name a script can hold … *)
+Theorem C24_render_ident_impl_is_spec : forall reserved n, has_sq n = false ->
+  render_ident_impl reserved n = render_ident reserved n.
+Proof. exact render_ident_impl_is_spec. Qed.
+Print Assumptions C24_render_ident_impl_is_spec.
 
-(* … and loses every other name (a quoted name with a blank, replayed on the engine) *)
-Theorem C24_quote_reserved_roundtrip_impl_refuted : forall reserved n,
-  has_sq n = false -> mem_bytes n reserved = false -> is_plain_ident n = false ->
-  parse_ident reserved (render_ident_impl reserved n) = None.
-Proof. exact quote_reserved_roundtrip_impl_refuted. Qed.
-Print Assumptions C24_quote_reserved_roundtrip_impl_refuted.
+(* … so the full statement holds for the code *)
+Theorem C24_quote_reserved_roundtrip_impl : forall reserved n, has_sq n = false ->
+  parse_ident reserved (render_ident_impl reserved n) = Some n.
+Proof. exact quote_reserved_roundtrip_impl. Qed.
+Print Assumptions C24_quote_reserved_roundtrip_impl.
+
+(* BEFORE THE FIX: reserved words and plain identifiers only; every other name ('a b', 'true') was lost *)
+Theorem C24_quote_reserved_roundtrip_partial_before_fix : forall reserved n, has_sq n = false ->
+  mem_bytes n reserved = true \/ (is_plain_ident n = true /\ is_bool_kw n = false) ->
+  parse_ident reserved (render_ident_before_fix reserved n) = Some n.
+Proof. exact quote_reserved_roundtrip_partial_before_fix. Qed.
+Print Assumptions C24_quote_reserved_roundtrip_partial_before_fix.
+
+Theorem C24_quote_reserved_roundtrip_refuted_before_fix : forall reserved n,
+  has_sq n = false -> mem_bytes n reserved = false -> is_plain_ident n = false \/ is_bool_kw n = true ->
+  parse_ident reserved (render_ident_before_fix reserved n) = None.
+Proof. exact quote_reserved_roundtrip_refuted_before_fix. Qed.
+Print Assumptions C24_quote_reserved_roundtrip_refuted_before_fix.
 
 (* hypotheses are satisfiable *)
 Example C24_example_canon :
@@ -83,5 +94,7 @@ Example C24_example_canon :
 Proof. vm_compute. repeat split. Qed.
 Example C24_example_ident :
   has_sq (B "calc") = false /\ mem_bytes (B "calc") [B "calc"; B "filter"] = true /\ is_plain_ident (B "Me_1") = true
-  /\ is_plain_ident (B "a b") = false.
+  /\ is_plain_ident (B "a b") = false
+  /\ render_ident_impl [B "calc"] (B "a b") = B "'a b'" /\ render_ident_impl [B "calc"] (B "true") = B "'true'"
+  /\ render_ident_impl [B "calc"] (B "'x y'") = B "'x y'" /\ render_ident_before_fix [B "calc"] (B "a b") = B "a b".
 Proof. vm_compute. repeat split. Qed.
